@@ -208,8 +208,10 @@ def main(argv):
     for e in errors[:3]:
         lines = e.strip().splitlines()
         print("harness error: " + lines[0][:200])
-        for ln in lines[-6:]:
-            print("    " + ln[:300])
+        keep = [ln for ln in lines if ln[:1] not in (" ", "\t") and ("Error" in ln or "Exception" in ln)]
+        frames = [ln for ln in lines if ln.lstrip().startswith("File ") and "/verif/" in ln]
+        for ln in frames[-3:] + keep[-2:]:
+            print("    " + ln.strip()[:300])
     if errors and status == 0:
         status = 2
 
